@@ -192,6 +192,10 @@ func processFile(filePath string, ctxt *processors.Context, checkOnly bool) erro
 		}
 		lines = append(lines, string(line))
 	}
+	if err = scanner.Err(); err != nil {
+		logger.Error().Err(err).Msgf("failed to read %s", filename)
+		return err
+	}
 
 	if !checkStandardHeader(lines) {
 		logger.Info().Msgf("file %s does not have standard header", filename)
